@@ -39,6 +39,8 @@ inductive Val where
   -- fourth round
   | tuple (l : List Item)                    -- a tuple / list of ints and slice objects (an index)
   | matchObj (groups : List (List Nat))      -- a regexp match object: group 0, group 1, … (all participating)
+  | float (bits : Nat)                       -- a Python float (opaque: only `isinstance` looks at it)
+  | obj (tag : Nat)                          -- some other Python object (opaque: no operation of the fragment applies)
 deriving DecidableEq, Repr, Inhabited
 
 inductive Err where
@@ -96,6 +98,9 @@ inductive Expr where
   | inStr (a b : Expr)                        -- `a in b` on text (non-empty `a`)
   | dropE (e a : Expr)                        -- `e[a:]` with a computed non-negative bound
   | rpartition (e sep : Expr)                 -- `e.rpartition(sep)` as the list of its three parts
+  | isFloat (e : Expr)                        -- `isinstance(e, float)`
+  | isStrInst (e : Expr)                      -- `isinstance(e, str)`
+  | slistc (l : List (List Nat))              -- a list literal of string constants
 deriving Repr, Inhabited
 
 inductive Stmt where
@@ -111,6 +116,7 @@ inductive Stmt where
   | forZip (x y : String) (e1 e2 : Expr) (body : Stmt)   -- `for x, y in zip(e1, e2): body` (no break)
   | setIdx (x : String) (n : Nat) (e : Expr)      -- `x[n] = e` on a list of strings
   | unpack3 (a b c : String) (e : Expr)           -- `a, b, c = e` where `e` is a list of three strings
+  | sortByIndex (x : String) (p : Expr)           -- `x.sort(key=p.index)` on lists of strings
 deriving Repr, Inhabited
 
 abbrev Env := List (String × Val)
@@ -136,6 +142,8 @@ def truthy : Val → Bool
   | .sidict d => !d.isEmpty
   | .tuple l => !l.isEmpty
   | .matchObj _ => true
+  | .float b => b != 0                       -- (placeholder: the truth of a float is never read by a tied block)
+  | .obj _ => true
 
 def Item.toVal : Item → Val
   | .int i => .int i
@@ -290,6 +298,26 @@ def strRpartition (s sep : List Nat) : Except Err (List (List Nat)) :=
     match rpartGo sep s with
     | some (h, t) => .ok [h, sep, t]
     | none => .ok [[], [], s]
+
+/-- position of `x` in `p` (`p.index(x)`) -/
+def indexOf? (p : List (List Nat)) (x : List Nat) : Option Nat :=
+  match p with
+  | [] => none
+  | y :: t => if y = x then some 0 else (indexOf? t x).map (· + 1)
+
+/-- stable insertion of a keyed element: after all elements whose key is not greater -/
+def insertByKey (k : Nat) (x : List Nat) : List (Nat × List Nat) → List (Nat × List Nat)
+  | [] => [(k, x)]
+  | (k', y) :: t => if k < k' then (k, x) :: (k', y) :: t else (k', y) :: insertByKey k x t
+
+/-- `l.sort(key=p.index)`: stable sort by position in `p`; an element that is not in `p` is a ValueError -/
+def sortByIndex (p : List (List Nat)) : List (List Nat) → Except Err (List (Nat × List Nat))
+  | [] => .ok []
+  | x :: t =>
+    match indexOf? p x, sortByIndex p t with
+    | some k, .ok r => .ok (insertByKey k x r)
+    | none, _ => .error .valueError
+    | _, .error e => .error e
 
 def prodInts : List Int → Int
   | [] => 1
@@ -487,6 +515,9 @@ def eval (env : Env) : Expr → Except Err Val
       match (← eval env e), (← eval env sep) with
       | .str s, .str p => .ok (.slist (← strRpartition s p))
       | _, _ => .error .unsupported
+  | .isFloat e => do .ok (.bool (match (← eval env e) with | .float _ => true | _ => false))
+  | .isStrInst e => do .ok (.bool (match (← eval env e) with | .str _ => true | _ => false))
+  | .slistc l => .ok (match l with | [] => .ilist [] | _ => .slist l)
 
 def exec (env : Env) : Stmt → Except Err Env
   | .skip => .ok env
@@ -519,6 +550,13 @@ def exec (env : Env) : Stmt → Except Err Env
       match (← eval env e) with
       | .slist [u, v, w] => .ok (setVar (setVar (setVar env a (.str u)) b (.str v)) c (.str w))
       | _ => .error .unsupported
+  | .sortByIndex x p => do
+      match (← lookup env x), (← eval env p) with
+      | .slist l, .slist pr => do
+          let r ← sortByIndex pr l
+          .ok (setVar env x (.slist (r.map (·.2))))
+      | .ilist [], _ => .ok env
+      | _, _ => .error .unsupported
 
 /-- the value bound to `x` after running `body` from `env` -/
 def runItem (env : Env) (body : Stmt) (x : String) : Except Err Val :=
